@@ -239,6 +239,30 @@ theorem ngd_interp_terms_partial {n : ℕ} (k m dm : DMat n 1 ℝ) (E dE : DMat 
   rw [hc]
   ring
 
+/-- **adjoint identity for the `interp_term` gradient**: for symmetric `S`, every direction `δk`,
+`gm·(k+δk)ᵀm + gv·(k+δk)ᵀS(k+δk) = gm·kᵀm + gv·kᵀSk + ⟨2gv·Sk + gm·m, δk⟩ + gv·δkᵀSδk` — the returned
+`interp_term_grad` is the exact first-order part.  (That `s_times_interp_term = S k`, `expec_vec = m` is the
+contract of `linear_cg`; the KL term does not depend on `interp_term`.) -/
+theorem ngd_interp_term_adjoint {n : ℕ} (S : DMat n n ℝ) (k dk m : DMat n 1 ℝ) (gm gv : ℝ)
+    (hS : S.toMatrixᵀ = S.toMatrix) :
+    gm * NaturalGrad.interpMean (k.add dk) m + gv * NaturalGrad.interpVarS S (k.add dk)
+      = gm * NaturalGrad.interpMean k m + gv * NaturalGrad.interpVarS S k
+        + ((NaturalGrad.ngdInterpTermGrad S k m gm gv).toMatrixᵀ * dk.toMatrix).trace
+        + gv * NaturalGrad.interpVarS S dk := by
+  simp only [NaturalGrad.interpMean, NaturalGrad.interpVarS, NaturalGrad.ngdInterpTermGrad, DMat.trace,
+    DMat.toMatrix_mul, DMat.toMatrix_add, DMat.toMatrix_transpose, DMat.toMatrix_smul, Matrix.mul_add, Matrix.add_mul,
+    Matrix.trace_add, Matrix.transpose_add, Matrix.transpose_smul, Matrix.smul_mul, Matrix.trace_smul,
+    Matrix.transpose_mul, hS, smul_eq_mul]
+  have h1 : (dk.toMatrixᵀ * (S.toMatrix * k.toMatrix)).trace = (k.toMatrixᵀ * (S.toMatrix * dk.toMatrix)).trace := by
+    rw [← Matrix.trace_transpose, Matrix.transpose_mul, Matrix.transpose_mul, Matrix.transpose_transpose, hS,
+      Matrix.mul_assoc]
+  have h2 : (m.toMatrixᵀ * dk.toMatrix).trace = (dk.toMatrixᵀ * m.toMatrix).trace := by
+    rw [← Matrix.trace_transpose, Matrix.transpose_mul, Matrix.transpose_transpose]
+  have h3 : (k.toMatrixᵀ * S.toMatrix * dk.toMatrix).trace = (k.toMatrixᵀ * (S.toMatrix * dk.toMatrix)).trace := by
+    rw [Matrix.mul_assoc]
+  rw [h1, h2, h3]
+  ring
+
 /-! ### LogNormalCDF -/
 
 /- Full statement (NOT proved): `LogNormalCDF.backward` is the derivative of the function `forward` computes,
@@ -259,6 +283,30 @@ theorem lncdf_backward_partial (Φ : ℝ → ℝ) (z : ℝ)
   have h4 : Real.sqrt 2 * Real.sqrt 2 = 2 := Real.mul_self_sqrt (by norm_num)
   have hs2 : 0 < Real.sqrt 2 := Real.sqrt_pos.mpr (by norm_num)
   have hsp : 0 < Real.sqrt Real.pi := Real.sqrt_pos.mpr hpi
+  rw [h2, h3]
+  field_simp
+  rw [pow_two, h4]
+
+/-- the `z < −1` branch in the same (ideal) sense: if `Φ(z) = ½·e·exp(−z²/2)` with `e > 0` — `e` is what the
+rational approximation `numerator/denominator` stands for — then the backward expression `|1/e|·√(2/π)`
+(`|denominator/numerator|·√(2/π)`) is the derivative of `log ∘ Φ`.
+NOT provable (it is false): that this equals the derivative of the *computed* term `log(N(z)/D(z)/2) − z²/2`,
+which is `N'/N − D'/D − z`; the two differ by the approximation error (measured 1e-4 relative at z = −2, 8e-4 at
+−1.5, 7e-3 next to −1; see docs/C19.md). -/
+theorem lncdf_backward_small_branch_partial (Φ : ℝ → ℝ) (z e : ℝ) (he : 0 < e)
+    (hval : Φ z = e / 2 * Real.exp (-(z ^ 2) / 2))
+    (hΦ : HasDerivAt Φ (Real.exp (-(z ^ 2) / 2) / Real.sqrt (2 * Real.pi)) z) :
+    HasDerivAt (fun x => Real.log (Φ x)) (|1 / e| * Real.sqrt (2 / Real.pi)) z := by
+  have hpos : 0 < Φ z := by rw [hval]; positivity
+  refine (hΦ.log (ne_of_gt hpos)).congr_deriv ?_
+  rw [hval, abs_of_pos (by positivity)]
+  have hpi : 0 < Real.pi := Real.pi_pos
+  have h2 : Real.sqrt (2 * Real.pi) = Real.sqrt 2 * Real.sqrt Real.pi := Real.sqrt_mul (by norm_num) _
+  have h3 : Real.sqrt (2 / Real.pi) = Real.sqrt 2 / Real.sqrt Real.pi := Real.sqrt_div (by norm_num) _
+  have h4 : Real.sqrt 2 * Real.sqrt 2 = 2 := Real.mul_self_sqrt (by norm_num)
+  have hs2 : 0 < Real.sqrt 2 := Real.sqrt_pos.mpr (by norm_num)
+  have hsp : 0 < Real.sqrt Real.pi := Real.sqrt_pos.mpr hpi
+  have hex : 0 < Real.exp (-(z ^ 2) / 2) := Real.exp_pos _
   rw [h2, h3]
   field_simp
   rw [pow_two, h4]
